@@ -10,11 +10,14 @@ SPEC = {
     'oracle_prefixes': ['C07:'],
     'asan_options': ':redzone=1024',   # Devices[-1] must land in a red zone (sizeof(tInternalDevice) < 1024)
     'timeout': 1500,
+    # the same generator once more under valgrind memcheck (reads of uninitialised memory, which ASan/UBSan do not see)
+    'memcheck': {'cases_quick': 60, 'cases_thorough': 500, 'variants': ['mc', 'mc_t32']},
     'trusted_base': ["the theorems are the index/bound/lifetime facts of the receive-path models (C02 fast packet; C10 ISO-TP, C18 device "
                      "list, C09 group function as they are integrated), each tied to the code by its own correspondence run",
                      "runtime counterpart: grammar-based frame histories against the real node under ASan+UBSan "
                      "(-fsanitize=address,undefined,float-cast-overflow,float-divide-by-zero; enum-range check included) "
-                     "with a 20 s per-op watchdog; this part is exploration, not proof"],
+                     "with a 20 s per-op watchdog, and a reduced budget of the same histories under valgrind memcheck (uninitialised reads; found "
+                     "C18:lastmsgtime-uninitialised on the pinned tree); this part is exploration, not proof"],
     'assumptions': ["driver contract: CANGetFrame delivers DLC <= 8 and an 8-byte buffer", "default compile-time configuration",
                     "memory safety below the level of array indices and object lifetime is observed by the sanitizers only"],
 }
